@@ -81,6 +81,10 @@ std::optional<ChunkRecord> ChunkStore::get_record(const ChunkId& id) {
     }
 
     if (std::chrono::steady_clock::now() >= it->second.expires_at) {
+        // The lookup is the first to notice the expiry: the on-disk copy must not outlive the record.
+        if (it->second.persisted && wipe_on_expiry_) {
+            wipe_persisted_chunk(it->second);
+        }
         chunks_.erase(it);
         return std::nullopt;
     }
